@@ -18,7 +18,8 @@ Syntax (tokens separated by single spaces):
   O <cls> <sig> <n> f1 .. fn    object of user class number <cls> with `dbusOrder` (f1..fn = the attribute
                                 values in dbusOrder order); <sig> = strhex of its `dbusSignature` or "~"
   X <cls>                       unsupported object of class number <cls>:
-                                0 bytes, 1 object, 2 frozenset, 3 complex, 4 range, >=5 a fresh class each
+                                0 bytes, 1 ellipsis (the value `...`), 2 frozenset, 3 complex, 4 range, >=5 a fresh
+                                class each (never `object`: every value is an instance of it)
 
 API
   to_line(v)      real Python value -> line text                 (ValueError for values outside the syntax)
@@ -107,7 +108,7 @@ def register_obj_class(klass, n):
     _OBJ_NUMBER[klass] = n
 
 
-_OTHER_FIXED = [bytes, object, frozenset, complex, range]
+_OTHER_FIXED = [bytes, type(Ellipsis), frozenset, complex, range]
 _OTHER_CLASSES = {}
 _OTHER_NUMBER = {}
 
@@ -128,6 +129,8 @@ def make_other(n):
         return 1j
     if k is range:
         return range(0)
+    if k is type(Ellipsis):
+        return Ellipsis
     return k()
 
 
